@@ -5,10 +5,12 @@ import os
 
 class ClassSchema:
 
-  def __init__(self, name, fields, frozen=False, invariant=(), lazy=()):
+  def __init__(self, name, fields, frozen=False, invariant=(), lazy=(), on_new=None, on_field=None):
     self.name, self.fields, self.frozen = name, dict(fields), frozen
     self.invariant = list(invariant)
     self.lazy = {k: True for k in lazy}
+    self.on_new = on_new          # hook(interp, obj): ghost definitions for a constructed object
+    self.on_field = on_field      # hook(interp, obj, field): when a lazy field is first read
 
 
 class Contract:
@@ -66,6 +68,7 @@ class Registry:
     self.opaque_item_error = 'ValueError'
     self.opaque_call_error = 'ValueError'
     self.default_elem_kind = 'obj'
+    self.ghost_factories = {}   # ghost name -> fn(interp) creating it on first use
     self.bounded_checks = {}  # prop -> [(name, description)]
     self.trusted = {}         # prop -> [strings]
 
@@ -85,8 +88,8 @@ class Registry:
   def for_prop(self, prop):
     return [c for cs in self.contracts.values() for c in cs if prop in c.props and not c.inline]
 
-  def cls(self, name, fields, frozen=False, invariant=(), lazy=()):
-    self.classes[name] = ClassSchema(name, fields, frozen, invariant, lazy)
+  def cls(self, name, fields, frozen=False, invariant=(), lazy=(), **kw):
+    self.classes[name] = ClassSchema(name, fields, frozen, invariant, lazy, **kw)
 
   def spec(self, fn):
     self.spec_fns[fn.__name__] = fn
